@@ -274,6 +274,34 @@ def run(ctx):
     for _ in range(n):
         a, o, t = gen_valid(ctx.rng, ctx.quick, classes=PLOG, bool_only=True)
         do_case(ctx, {"ast": a})
+    # negations (Not, Imply condition, double Not) of conjunctions / k-of-n over a mix of compounds and several atoms:
+    # the inward push has to count every atom
+    from props.c05 import gen_mixed
+    made = 0
+    for _ in range(n * 3):
+        if made >= n // 3:
+            break
+        inner = gen_mixed(ctx.rng, 1)
+        def boolify(x):
+            if isinstance(x, dict):
+                y = {k: boolify(v) for k, v in x.items() if k != "sign"}
+                if y.get("c") == "var": y["lo"], y["hi"] = 0, 1
+                return y
+            if isinstance(x, list): return [boolify(v) for v in x]
+            return x
+        inner = boolify(inner)
+        if inner.get("c") == "AtLeast" and inner["v"] < 1: inner["v"] = 1
+        a = ctx.rng.choice([{"c": "Not", "arg": inner}, {"c": "Imply", "cond": inner, "cons": {"c": "str", "id": "w"}},
+                            {"c": "Not", "arg": {"c": "Not", "arg": inner}}, {"c": "XNor", "args": [inner, {"c": "str", "id": "w"}]}])
+        try:
+            o = build(a)
+        except Exception:
+            continue
+        if is_var(o) or not well_formed(snap(o)) or o.errors():
+            continue
+        made += 1
+        ctx.tags["negated-mixed-stream"] += 1
+        do_case(ctx, {"ast": a})
     for _ in range(n // 2):
         do_case(ctx, {"cic": gen_cic(ctx.rng), "mode": ctx.rng.choice(["default", "default", "str", "ident", "var"])})
     if not ctx.quick and not ctx.search:
